@@ -273,15 +273,17 @@ def streams(ctx):
     #          other (seeded change C16-a: stale max_x_ after the clamp => out-of-bounds sieve access). Recurrence on three
     #          implementation values, a few threads settings.
     ops = []
-    n = 24 if q else 200
+    n = 24 if q else 120
     for k in range(n):
-        x = int(math.exp(rng.uniform(math.log(1.3 * 10 ** 15), math.log(2 * 10 ** 16 if q else 10 ** 18))))
+        # thorough: mostly below 1e17 (a few seconds per op), every 8th op up to 1e18 (~20 s each, several minutes under load)
+        top = 2 * 10 ** 16 if q else (10 ** 18 if k % 8 == 7 else 10 ** 17)
+        x = int(math.exp(rng.uniform(math.log(1.3 * 10 ** 15), math.log(top))))
         if k % 6 == 0:
             x = rng.choice([2 * 10 ** 15, 10 ** 16, 3647040 ** 2 * 100]) + rng.randint(-2, 2)
         a = rng.choice([rng.randint(130, 260), rng.randint(50, 130), rng.randint(260, 2000)] if k % 3 else [199, 200, 130, 131])
         ops.append("phi3 %d %d %d %d" % (rng.choice([0, 16, 1] if x < 10 ** 16 else [0, 16]), x, a, P[a - 1]))
-    out.append(Stream("recurrence_cache_clamped", ops, oracle=True, model_ops=mops3, judge=judge_ok, timeout=3600,
-                      env={"PCV_OP_TIMEOUT": "600"},       # x up to 1e18: ~20 s per op on a loaded machine
+    out.append(Stream("recurrence_cache_clamped", ops, oracle=True, model_ops=mops3, judge=judge_ok, timeout=4 * 3600,
+                      env={"PCV_OP_TIMEOUT": "1200"},       # x up to 1e18: ~20 s per op on a loaded machine
                       classify=lambda op, res: "x>=1e15"))
 
     # ---- G. closed form phi(x, a) = pi(x) - a + 1 for a >= pi(sqrt x) (judge; a = pi(sqrt x) is Legendre's formula
